@@ -4,7 +4,8 @@
 use crate::ciphers::*;
 use crate::nd;
 use cipher::consts::*;
-use cipher::{InnerInit, InnerIvInit};
+use cipher::InnerIvInit;
+use cipher::crypto_common::InnerInit;
 use cts::{Decrypt, Encrypt};
 
 /// A *function*: the same input block always gets the same output block (first use picks the next
@@ -130,7 +131,7 @@ pub fn cts_ref<const B: usize, const M: usize>(enc: bool, variant: u8, cbc: bool
 
 #[macro_export]
 macro_rules! cts_harness {
-    ($h:ident, $unw:expr, $cipher:ident, $b:expr, $maxl:expr, $enc:expr, $variant:expr, $cbc:expr, $ty:ident) => {
+    ($h:ident, $unw:expr, $cipher:ident, $b:expr, $maxl:expr, $enc:tt, $variant:expr, $cbc:tt, $ty:ident) => {
         #[cfg_attr(kani, kani::proof)]
         #[cfg_attr(kani, kani::unwind($unw))]
         pub fn $h() {
